@@ -7,11 +7,11 @@ ROOT = os.path.dirname(os.path.dirname(os.path.abspath(__file__)))
 # id -> (technique, level text, level note, design ref)
 CLAIMED = {
  "C01": ("complete enumeration + seeded random search against an independent civil-calendar model (two formulations)",
-         "thorough tier enumerates all 2^32 day numbers and all 5.4e9 (year, month, day) triples of the stated domain against an independent model, so within the model's correctness the property is decided exhaustively; quick tier enumerates boundary windows (~6M days, ~3000 years x 462 triples) plus 1M random cases",
+         "thorough tier enumerates all 2^32 day numbers and all 5.4e9 (year, month, day) triples of the stated domain against an independent model, so within the model's correctness the property is decided exhaustively; quick tier enumerates boundary windows (~6M days, ~3000 years x 462 triples), every 3rd day number of the whole range and 48 probe dates in every one of the 11.76M years, plus 2.5M random cases",
          "trusts the reference calendar in harness/src/model/cal.rs (closed form cross-checked against successor stepping and anchors at every run) and Date::from_timestamp as the way to reach a day number",
          "DESIGN.md 4 C01"),
  "C02": ("complete enumeration (getters: all days; format fields: year-end fortnights of all years; setter: all years x N) + random search against model weekday / day-of-year / ISO week (two formulations) / quarter",
-         "thorough: weekday() and day_of_year() for all 2^32 days, the w/q/e/D format fields for Dec 25..Jan 7 of all 11.76M years plus 400-year cycles and range ends, set_day_of_year for every year x 0..=367; quick: windows of the same plus 1M random cases. Generated-input search, exhaustive on the getter and setter sub-domains",
+         "thorough: weekday() and day_of_year() for all 2^32 days, the w/q/e/D format fields for Dec 25..Jan 7 of all 11.76M years plus 400-year cycles and range ends, set_day_of_year for every year x 0..=367; quick: windows of the same, every 5th day of the whole range for the getters, every 1009th day and the year-end fortnight of every 23rd year for the fields, plus 1M random cases. Generated-input search, exhaustive on the getter and setter sub-domains",
          "trusts the ISO-8601 reading 'proleptic Gregorian, astronomical year numbering' for years <= 0 (both model formulations share it) and the documented symbol table for e/w/q/D",
          "DESIGN.md 4 C02"),
  "C03": ("seeded boundary-dense random search + enumeration around the range ends against an i128 time line",
@@ -52,7 +52,7 @@ CLAIMED = {
          "DESIGN.md 4 C15"),
  "C11": ("grammar-based pattern generation + symbol x width x value-class product against a reference formatter written from the doc tables; Offset::Local values rendered under an injected zone file and pinned clock",
          "500k (quick) / 10M (thorough) (value, pattern) cases over all three types, all eras, all offsets, patterns of fields x widths 1..=10, literals incl. non-ASCII, quoted text and '' escapes; plus the complete product 19 symbols x 10 widths x ~2300 value classes; output compared character by character with the reference rendering; 60k / 1M Time and DateTime values carrying Offset::Local under synthesized zone files and a pinned clock (C11.local_offset); the same pattern used on the other two types directly before (history independence)",
-         "trusts the reference formatter (reproduces all 403 format assertions of the repository's own tests at every selftest); renderings the table leaves open (yy for years <= -10, b inside the noon/midnight second, X..XXX for |offset| < 60 s) are skipped and counted",
+         "trusts the reference formatter (reproduces all 403 format assertions of the repository's own tests at every selftest); renderings the table leaves open (yy for years <= -10, b inside the noon/midnight second, X..XXX for |offset| < 60 s) are skipped and counted; one known finding (a literal U+0000 in a pattern is rendered as an apostrophe) is listed in known_findings.json and reported as KNOWN-FINDING",
          "DESIGN.md 4 C11"),
  "C12": ("round-trip property over a constructed grammar of coherent, textually unambiguous patterns; inputs are the crate's own formatted output",
          "500k (quick) / 10M (thorough) (value, pattern) cases; parse(format(v,p),p) must succeed, re-format to the same string, default absent groups, and - when the pattern carries full date, time and zone - return the same instant and offset",
